@@ -143,9 +143,9 @@ public :
     {
         assert(m_bufferSize > 0);
 
-        if (m_buffer.size() == m_bufferSize)
+        if (m_buffer.size() >= m_bufferSize)
         {
-            flushBuffer();
+            flushFullBuffer();
         }
 
         m_buffer.push_back(theChar);
@@ -453,6 +453,14 @@ private:
 
     bool
     operator==(const XalanOutputStream&) const;
+
+    /**
+     * Flush the buffer because it is full and more data is coming.  A
+     * high surrogate at the end of the buffer stays in it, so that the
+     * pair reaches the transcoder in one piece.
+     */
+    void
+    flushFullBuffer();
 
     void
     doWrite(
